@@ -44,6 +44,32 @@ lazy_static! {
     };
 }
 
+/// Length of the incomplete UTF-8 sequence at the end of data (0 if data does not end inside a character)
+fn incomplete_utf8_tail_len(data: &[u8]) -> usize {
+    for back in 1..=data.len().min(3) {
+        let byte = data[data.len() - back];
+
+        // continuation byte, the leading byte is before
+        if byte & 0xC0 == 0x80 {
+            continue;
+        }
+
+        let expected = if byte & 0xE0 == 0xC0 {
+            2
+        } else if byte & 0xF0 == 0xE0 {
+            3
+        } else if byte & 0xF8 == 0xF0 {
+            4
+        } else {
+            return 0;
+        };
+
+        return if back < expected { back } else { 0 };
+    }
+
+    0
+}
+
 impl HtmlFilterBodyAction {
     pub fn new(visitor: HtmlBodyVisitor) -> Self {
         Self {
@@ -59,6 +85,10 @@ impl HtmlFilterBodyAction {
         let mut data = self.last_buffer.clone();
         data.extend(input);
 
+        // A chunk can end in the middle of a multi-byte character: keep the incomplete
+        // sequence for the next call instead of failing on invalid UTF-8
+        let incomplete_tail = data.split_off(data.len() - incomplete_utf8_tail_len(&data));
+
         let mut tokenizer = html::Tokenizer::new(data);
         let mut to_return = "".to_string();
 
@@ -68,6 +98,7 @@ impl HtmlFilterBodyAction {
             if token_type == html::TokenType::ErrorToken {
                 self.last_buffer = tokenizer.raw();
                 self.last_buffer.extend(tokenizer.buffered());
+                self.last_buffer.extend(incomplete_tail);
 
                 break;
             }
@@ -81,6 +112,7 @@ impl HtmlFilterBodyAction {
                     self.last_buffer = token_data.into_bytes();
                     self.last_buffer.extend(tokenizer.raw());
                     self.last_buffer.extend(tokenizer.buffered());
+                    self.last_buffer.extend(incomplete_tail);
 
                     return Ok(to_return.into_bytes());
                 }
